@@ -101,15 +101,18 @@ fn chanrace(x: &mut Exec) -> Res {
 
 // ------------------------------------------------------------------------------------ Mutex (C05)
 fn lockrace(x: &mut Exec) -> Res {
-    let actors = x.rng.range(2, 4) as usize;
-    let per = rounds(x, 60_000) / actors as u64;
+    // half of the instances: plain threads only, three or four of them - every step of lock()/unlock() of one party
+    // can then fall between two adjacent steps of two others (first-registered vs first-counted and the like)
+    let threads_only = x.rng.chance(1, 2);
+    let actors = if threads_only { x.rng.range(3, 4) as usize } else { x.rng.range(2, 4) as usize };
+    let per = rounds(x, if threads_only { 400_000 } else { 60_000 }) / actors as u64;
     let m = Arc::new(Mutex::new((0u64, !0u64)));
     let occ = Arc::new(AtomicIsize::new(0));
     let errs = Arc::new(std::sync::Mutex::new(Vec::<String>::new()));
     let mut kinds = vec![];
     for i in 0..actors {
         let (m, occ, errs) = (m.clone(), occ.clone(), errs.clone());
-        let is_co = if i == 0 { false } else { x.rng.chance(2, 3) };
+        let is_co = if i == 0 || threads_only { false } else { x.rng.chance(2, 3) };
         kinds.push(is_co);
         let mut r = x.rng.fork();
         x.spawn(&format!("l{}", i), is_co, move |a| {
@@ -198,6 +201,7 @@ fn semrace(x: &mut Exec) -> Res {
 fn parkrace(x: &mut Exec) -> Res {
     let n = rounds(x, 40_000);
     let turn = Arc::new(AtomicU64::new(0));
+    let gave_up = Arc::new(AtomicU64::new(0));
     let use_blocker = x.rng.chance(1, 2);
     let handle: Arc<std::sync::Mutex<Option<coroutine::Coroutine>>> = Default::default();
     let slot: Arc<std::sync::Mutex<Option<Arc<Blocker>>>> = Default::default();
@@ -233,6 +237,7 @@ fn parkrace(x: &mut Exec) -> Res {
     {
         // the unparker is a plain thread that spins for its turn: a genuinely parallel party
         let (turn, handle, slot) = (turn.clone(), handle.clone(), slot.clone());
+        let gave_up2 = gave_up.clone();
         let mut r = x.rng.fork();
         x.spawn("unparker", false, move |_a| {
             for _ in 0..n {
@@ -241,6 +246,7 @@ fn parkrace(x: &mut Exec) -> Res {
                     std::hint::spin_loop();
                     // bounded: if the parker is stranded this thread must go quiet too
                     if t0.elapsed() > Duration::from_secs(3) {
+                        gave_up2.store(turn.load(SeqCst) + 1, SeqCst);
                         return;
                     }
                 }
@@ -263,7 +269,14 @@ fn parkrace(x: &mut Exec) -> Res {
         });
     }
     x.desc = format!("park/unpark turn passing between a coroutine and a spinning thread, {} turns each, {}", n, if use_blocker { "fresh Blocker per wait" } else { "coroutine::park + Coroutine::unpark" });
-    x.wait_all()?;
+    let r = x.wait_all();
+    // the spinning unparker gives up after 3 s without its turn (turn value + 1 remembered). If the turn moved on after
+    // that, the parker was only slow (a stalled machine) and then found nobody to wake it: not a verdict about may.
+    let g = gave_up.load(SeqCst);
+    if g != 0 && turn.load(SeqCst) + 1 != g {
+        return Err(Fail::Inconclusive(format!("the spinning unparker gave up at turn {} after 3 s, the parker came back later (turn {} now)", g - 1, turn.load(SeqCst))));
+    }
+    r?;
     if turn.load(SeqCst) != 2 * n {
         return Err(Fail::Stranded(format!("park/unpark turn passing stopped at turn {} of {}: a wake-up was lost", turn.load(SeqCst), 2 * n)));
     }
